@@ -267,6 +267,14 @@ func (c *Ctx) fname(fn *ssa.Function) string {
 	if n, ok := anonNames[fn]; ok {
 		return n
 	}
+	if par := fn.Parent(); par != nil {
+		// anonymous function: name it by its position among the parent's literals
+		for i, an := range par.AnonFuncs {
+			if an == fn {
+				return fmt.Sprintf("%s$%d", c.fname(par), i+1)
+			}
+		}
+	}
 	s := fn.String()
 	s = strings.ReplaceAll(s, modPath+"/type1/names", "names")
 	s = strings.ReplaceAll(s, modPath+"/", "")
